@@ -63,6 +63,8 @@ type cacheRun struct {
 	ops                      []string
 }
 
+var cacheStalled bool
+
 func (r *cacheRun) viol(prop, what string) {
 	if r.focus != "" && r.focus != prop {
 		return
@@ -950,9 +952,14 @@ func (r *cacheRun) waitApplied() {
 				}
 			}
 			if time.Since(t0) > 5*time.Second {
-				for _, p := range []string{"C04", "C07"} {
-					r.viol(p, fmt.Sprintf("writes queued on shard %d were not applied within 5 s of the drain token becoming free", i))
+				props := []string{"C04", "C07"}
+				if r.focus != "" && r.focus != "C04" && r.focus != "C07" {
+					props = append(props, r.focus)
 				}
+				for _, p := range props {
+					r.viol(p, fmt.Sprintf("shard %d never became quiescent (ring empty and drain token free) within 5 s after the last call returned: queued writes are not applied or the drain token is never released", i))
+				}
+				cacheStalled = true // no point in running further traces against a stalled implementation
 				return
 			}
 			runtime.Gosched()
@@ -1131,7 +1138,7 @@ func streamCache(o opts, focus string) {
 	m := newMeta("cache", o.seed)
 	m.Rule = "API traces (Set, SetAsync batches closed by Sync, Get, GetWithTTL, Exists, Delete, Keys, Clear, Cleanup, clock advances landing on/next to deadlines, Stats, Close last) over a key domain 1.5-4x capacity, policies {LRU,LFU,FIFO,Sieve,default} x shards {1,2,4,8} x MaxSize {0..64} x MaxCost/weigher modes x DefaultTTL x stats x listeners, plus directed prefixes (fill, update all, insert; fill, read oldest; zero-cost floods; cost-growing update of the LRU tail); non-trivial = trace with an eviction, an expiry and an update; distinct by (policy, shards, MaxSize, weigher mode, listeners); in every third trace the harness holds the drain tokens during async batches so that the SetAsync calls go through the ring and applyWriteBatch instead of the inline path"
 	w := newTraceWriter(o.out, "cache")
-	for t := 0; t < o.n; t++ {
+	for t := 0; t < o.n && !cacheStalled; t++ {
 		conf, lst, wmode := randCacheConfig(rng, focus)
 		directed := t % 6
 		if directed == 5 && focus != "C09" {
